@@ -30,6 +30,8 @@ import (
 //	confirm     answer pending subscribe #A with a server id   B: preferred server id
 //	reject      answer pending subscribe #A                    B: 0 JSON-RPC error, 1 empty id, 2 non-string id
 //	notify      eth_subscription for server id #A (live, stale or unknown), harness waits until it is consumed or dropped
+//	            B: 0 = A indexes the fixed list of ids; 1 = A indexes the ids that have an owner now; 2 = A indexes the ids
+//	            the server gave to subscriptions whose Subscribe had been cancelled (most recent first, see lateconfirm)
 //	unsub       start Unsubscribe on subscription #A
 //	unsubreply  answer outstanding eth_unsubscribe #A          B: 0 true, 1 false, 2 JSON-RPC error
 //	cancelcall  cancel the context of outstanding call #A
@@ -41,7 +43,12 @@ import (
 //	unsubcancelreply  the same for outstanding eth_unsubscribe #A (Unsubscribe waits in CallRPC as well)    B%3 order, B/3 as for unsubreply
 //	latereply   a reply for the id of one of the four calls that finished most recently (answered, cancelled, failed by a
 //	            reconnect), shaped like a genuine reply                                   A: which, B: 0 result, 1 JSON-RPC error, 2 null result
-//	cancelsub   cancel the context of pending (first-time) Subscribe #A
+//	cancelsub   cancel the context of pending (first-time) Subscribe #A          B: 1 = the one started most recently
+//	lateconfirm the server's answer to the eth_subscribe of a Subscribe that was CANCELLED while it was pending (the server
+//	            had processed the request all the same)     A: which (most recent first)
+//	            B%4: 0..2 = a confirmation with a free server id (preferred: B/4), 3 = a JSON-RPC error.  After a confirmation
+//	            the server sends notifications for an id no subscription of the client owns (its Subscribe did not return
+//	            successfully): they must reach nobody, and the receive loop must go on taking frames
 //	reconnect   drop the connection and run the after-connect callback   A: k>0 = the k-th send of the callback fails
 //	            B (only after "down"): 0 = requests blocked in Send go out before the callback runs, 1 = after it
 //	hold        like notify for a live server id, but the harness does not consume it yet: the receive loop stays
@@ -238,6 +245,8 @@ type wsRun struct {
 	held       *heldNotif
 	isDown     bool
 	limbo      []*wsCall
+	cancelled  []string // request ids of Subscribe calls cancelled while pending, not answered by the server yet
+	orphans    []string // server ids confirmed for such requests: the server sends notifications, nobody owns them
 }
 
 // server-assigned subscription ids are opaque strings: two of them differ only in letter case,
@@ -833,7 +842,7 @@ func (r *wsRun) opDown() {
 	r.class("ws:down-period")
 }
 
-func (r *wsRun) opNotify(a int) {
+func (r *wsRun) opNotify(a, b int) {
 	if r.isDown {
 		return
 	}
@@ -841,13 +850,42 @@ func (r *wsRun) opNotify(a int) {
 		a = -a
 	}
 	ids := append(append([]string{}, serverIDs...), "0xdead")
-	id := ids[a%len(ids)]
+	switch b {
+	case 1:
+		if ids = sortedKeys(r.owner); len(ids) == 0 {
+			return
+		}
+	case 2:
+		ids = nil
+		for i := len(r.orphans) - 1; i >= 0; i-- {
+			ids = append(ids, r.orphans[i])
+		}
+		if len(ids) == 0 {
+			return
+		}
+	}
+	r.opNotifyID(ids[a%len(ids)])
+}
+
+func (r *wsRun) isOrphan(id string) bool {
+	for _, o := range r.orphans {
+		if o == id {
+			return true
+		}
+	}
+	return false
+}
+
+func (r *wsRun) opNotifyID(id string) {
 	r.seq++
 	payload := fmt.Sprintf(`{"n":%d,"for":%q}`, r.seq, id)
 	want := r.owner[id]
 	switch {
 	case want != nil:
 		r.class("ws:notify-live-id")
+	case r.serverLive[id] && r.isOrphan(id):
+		r.class("ws:notify-id-confirmed-late-for-a-cancelled-subscribe")
+		r.class("ws:notify-id-without-client-owner")
 	case r.serverLive[id]:
 		r.class("ws:notify-id-without-client-owner")
 	default:
@@ -1215,10 +1253,22 @@ func (r *wsRun) opLateReply(a, b int) {
 	r.deliverSync(msg)
 }
 
-func (r *wsRun) opCancelSub(a int) {
+func (r *wsRun) opCancelSub(a, b int) {
 	s := pickSub(r.subs, a, stPending1, stLimbo)
 	if s == nil {
 		return
+	}
+	if b%2 == 1 || b%2 == -1 { // the one started most recently
+		for _, x := range r.subs {
+			if x.state == stPending1 || x.state == stLimbo {
+				s = x
+			}
+		}
+	}
+	if s.state == stLimbo {
+		r.class("ws:subscribe-cancelled-before-its-request-was-sent")
+	} else {
+		r.class("ws:subscribe-cancelled-while-pending")
 	}
 	s.cancel()
 	res, ok := r.waitSubscribe(s, "its context was cancelled")
@@ -1227,8 +1277,45 @@ func (r *wsRun) opCancelSub(a int) {
 	}
 	if s.reqID != "" {
 		r.stale = append(r.stale, s.reqID)
+		r.cancelled = append(r.cancelled, s.reqID) // the server may still answer it
 	}
 	s.state, s.reqID = stGone, ""
+}
+
+// opLateConfirm: the server answers the request of a Subscribe that gave up (context cancelled) before the answer came.
+// Nobody is waiting; after a confirmation the server holds a subscription that no subscription of the client owns.
+func (r *wsRun) opLateConfirm(a, b int) {
+	if r.isDown || len(r.cancelled) == 0 {
+		return
+	}
+	if a < 0 {
+		a = -a
+	}
+	if b < 0 {
+		b = -b
+	}
+	i := len(r.cancelled) - 1 - a%len(r.cancelled)
+	reqID := r.cancelled[i]
+	var msg, id string
+	if b%4 == 3 {
+		msg = fmt.Sprintf(`{"jsonrpc":"2.0","id":%q,"error":{"code":-32002,"message":"rej-late"}}`, reqID)
+		r.class("ws:cancelled-subscribe-rejected-late")
+	} else {
+		if id = r.freeServerID(b / 4); id == "" {
+			return
+		}
+		msg = fmt.Sprintf(`{"jsonrpc":"2.0","id":%q,"result":%q}`, reqID, id)
+		r.class("ws:cancelled-subscribe-confirmed-late")
+	}
+	r.cancelled = append(r.cancelled[:i], r.cancelled[i+1:]...)
+	if id != "" {
+		r.serverLive[id] = true
+		r.orphans = append(r.orphans, id)
+	}
+	if len(r.calls) > 0 {
+		r.class("ws:cancelled-subscribe-answered-late-while-calls-outstanding")
+	}
+	r.deliverSync(msg)
 }
 
 func (r *wsRun) opReconnect(failAt, variant int) {
@@ -1574,7 +1661,7 @@ func runWS(c WSCase) (vs []evid.Violation, info wsInfo) {
 		case "reject":
 			r.opReject(st.A, st.B)
 		case "notify":
-			r.opNotify(st.A)
+			r.opNotify(st.A, st.B)
 		case "unsub":
 			r.opUnsub(st.A)
 		case "unsubreply":
@@ -1582,7 +1669,9 @@ func runWS(c WSCase) (vs []evid.Violation, info wsInfo) {
 		case "cancelcall":
 			r.opCancelCall(st.A)
 		case "cancelsub":
-			r.opCancelSub(st.A)
+			r.opCancelSub(st.A, st.B)
+		case "lateconfirm":
+			r.opLateConfirm(st.A, st.B)
 		case "cancelreply":
 			r.opCancelReply(st.A, st.B)
 		case "unsubcancelreply":
@@ -1627,10 +1716,12 @@ func runWS(c WSCase) (vs []evid.Violation, info wsInfo) {
 			if r.dead {
 				break
 			}
-			for i, sid := range serverIDs {
-				if sid == id {
-					r.opNotify(i)
-				}
+			r.opNotifyID(id)
+		}
+		// ids the server confirmed for Subscribe calls that had given up: still nobody's, and the loop still runs
+		for _, id := range r.orphans {
+			if !r.dead && r.serverLive[id] && r.owner[id] == nil {
+				r.opNotifyID(id)
 			}
 		}
 		for !r.dead && pickSub(r.subs, 0, stUnsubscribing) != nil {
@@ -1722,6 +1813,7 @@ var wsOps = []string{
 	"unsub", "unsub",
 	"cancelreply", "cancelreply", "latereply", "unsubcancelreply",
 	"motif:cancelreply", "motif:cancelreply", "motif:unsubcancelreply",
+	"motif:cancelsub", "motif:cancelsub", "motif:cancelsub", "lateconfirm", "notify:orphan", "notify:live",
 	"unsubreply", "unsubreply",
 	"stale", "stale",
 	"reject", "cancelcall", "cancelsub",
@@ -1731,6 +1823,14 @@ var wsOps = []string{
 func genWSStep(rt *rapid.T, op string) WSStep {
 	st := WSStep{Op: op}
 	switch st.Op {
+	case "notify:live", "notify:orphan":
+		st = WSStep{Op: "notify", A: rapid.IntRange(0, 3).Draw(rt, "a"), B: map[string]int{"notify:live": 1, "notify:orphan": 2}[op]}
+	case "lateconfirm":
+		st.A = rapid.IntRange(0, 2).Draw(rt, "a")
+		st.B = rapid.IntRange(0, 19).Draw(rt, "b")
+	case "cancelsub":
+		st.A = rapid.IntRange(0, 7).Draw(rt, "a")
+		st.B = rapid.IntRange(0, 1).Draw(rt, "b")
 	case "call", "sub":
 		if rapid.IntRange(0, 11).Draw(rt, "sendfail") == 11 {
 			st.A = 1
@@ -1739,7 +1839,7 @@ func genWSStep(rt *rapid.T, op string) WSStep {
 		st.A = rapid.SampledFrom([]int{0, 0, 0, 1, 2, 3}).Draw(rt, "failAt")
 		st.B = rapid.IntRange(0, 1).Draw(rt, "limboOrder")
 	case "consume", "down":
-	case "cancelcall", "cancelsub", "unsub", "notify":
+	case "cancelcall", "unsub", "notify":
 		st.A = rapid.IntRange(0, 7).Draw(rt, "a")
 	case "cancelreply", "unsubcancelreply":
 		st.A = rapid.IntRange(0, 7).Draw(rt, "a")
@@ -1757,6 +1857,12 @@ func genWSStep(rt *rapid.T, op string) WSStep {
 //	                        late reply for a finished call; then 1..3 times: a new call, perhaps another late reply, the
 //	                        answer to some outstanding call - each of which must carry the reply to its own request
 //	motif:unsubcancelreply  subscribe, confirm, unsubscribe, the Unsubscribe cancelled as the server's answer arrives, then calls
+//	motif:cancelsub         a Subscribe is cancelled while it is pending - after its request went out, or (one time in four)
+//	                        while the connection is down, before its request could be sent - perhaps beside a live subscription
+//	                        and an outstanding call; the server answers the abandoned request late (confirmation, rejection, or
+//	                        never) and sends notifications for the id it confirmed; in between and afterwards calls with their
+//	                        replies, new subscriptions with notifications of their own, a reconnect, more notifications for the
+//	                        abandoned id
 var wsChunkGen = rapid.Custom(func(rt *rapid.T) []WSStep {
 	op := rapid.SampledFrom(wsOps).Draw(rt, "op")
 	switch op {
@@ -1778,6 +1884,57 @@ var wsChunkGen = rapid.Custom(func(rt *rapid.T) []WSStep {
 				l = append(l, genWSStep(rt, "cancelreply"), WSStep{Op: "call"})
 			}
 			l = append(l, genWSStep(rt, "reply"))
+		}
+		return l
+	case "motif:cancelsub":
+		var l []WSStep
+		if rapid.Bool().Draw(rt, "beside-live") {
+			l = append(l, WSStep{Op: "sub"}, genWSStep(rt, "confirm"))
+		}
+		if rapid.Bool().Draw(rt, "beside-call") {
+			l = append(l, WSStep{Op: "call"})
+		}
+		unsent := rapid.IntRange(0, 3).Draw(rt, "unsent") == 2
+		if unsent {
+			l = append(l, WSStep{Op: "down"})
+		}
+		l = append(l, WSStep{Op: "sub"})
+		if rapid.IntRange(0, 2).Draw(rt, "second") == 1 { // two abandoned requests, answered in either order
+			l = append(l, WSStep{Op: "sub"}, WSStep{Op: "cancelsub", B: 1})
+		}
+		l = append(l, WSStep{Op: "cancelsub", B: 1})
+		if unsent {
+			l = append(l, genWSStep(rt, "reconnect"))
+		}
+		mid := func(tag string) {
+			switch rapid.IntRange(0, 5).Draw(rt, tag) {
+			case 0:
+				l = append(l, WSStep{Op: "call"})
+			case 1:
+				l = append(l, WSStep{Op: "call"}, genWSStep(rt, "reply"))
+			case 2:
+				l = append(l, genWSStep(rt, "notify:live"))
+			}
+		}
+		mid("before-answer")
+		for i, n := 0, rapid.IntRange(0, 2).Draw(rt, "answers"); i < n; i++ {
+			l = append(l, genWSStep(rt, "lateconfirm"))
+		}
+		for i, n := 0, rapid.IntRange(1, 3).Draw(rt, "events"); i < n; i++ {
+			l = append(l, genWSStep(rt, "notify:orphan"))
+			mid("between-events")
+		}
+		for i, n := 0, rapid.IntRange(1, 3).Draw(rt, "after"); i < n; i++ {
+			switch rapid.IntRange(0, 4).Draw(rt, "then") {
+			case 0, 1:
+				l = append(l, WSStep{Op: "call"}, genWSStep(rt, "reply"))
+			case 2:
+				l = append(l, WSStep{Op: "sub"}, genWSStep(rt, "confirm"), genWSStep(rt, "notify:live"), genWSStep(rt, "notify:orphan"))
+			case 3:
+				l = append(l, genWSStep(rt, "reconnect"), genWSStep(rt, "notify:orphan"), WSStep{Op: "call"}, genWSStep(rt, "reply"))
+			default:
+				l = append(l, genWSStep(rt, "lateconfirm"), genWSStep(rt, "notify:orphan"), genWSStep(rt, "unsub"), genWSStep(rt, "unsubreply"))
+			}
 		}
 		return l
 	case "motif:unsubcancelreply":
